@@ -6,6 +6,7 @@ import (
 	"net"
 	"strings"
 	"sync"
+	"syscall"
 	"time"
 
 	"github.com/spali/go-rscp/rscp"
@@ -70,18 +71,25 @@ func dlRun(ct, st, rt time.Duration, c *callSpec) string {
 		return mk(c.user)
 	}
 	cl.VerifAttachConn(sc)
-	res := func() (s string) {
+	done := make(chan string, 1)
+	go func() {
 		defer func() {
 			if r := recover(); r != nil {
-				s = "panic"
+				done <- "panic"
 			}
 		}()
 		_, err := cl.SendMultiple(c.reqs)
 		if err != nil {
-			return "err " + clientErrClass(err)
+			done <- "err " + clientErrClass(err)
+			return
 		}
-		return "ok"
+		done <- "ok"
 	}()
+	res := "hang"
+	select {
+	case res = <-done:
+	case <-time.After(20 * time.Second): // the scripted connection never waits: a call that is still running blocks on itself
+	}
 	return strings.SplitN(res, " ", 2)[0] + " : " + collapse(sc.log)
 }
 
@@ -131,9 +139,13 @@ func init() {
 				rscp.Now = func() time.Time { return time.Now().Add(skew) }
 				label = fmt.Sprintf("N deadline clock-hook=%v", skew)
 			}
+			about(fmt.Sprintf("dl %d %d %d | %s", int64(ct), int64(st), int64(rt), c.op()))
 			got := dlRun(ct, st, rt, c)
 			rscp.Now = time.Now
 			prop := "pass"
+			if strings.HasPrefix(got, "hang") {
+				prop = "FAIL C10 a call on a connection that answers every read and write at once never returns"
+			}
 			if eff, err := rscp.VerifCheckConfig(rscp.ClientConfig{Address: "a", Username: "u", Password: "p", Key: "k", ConnectionTimeout: ct, SendTimeout: st, ReceiveTimeout: rt}); err == nil {
 				if at := strings.Index(got, " : "); at >= 0 {
 					for _, tok := range strings.Fields(got[at+3:]) {
@@ -540,6 +552,51 @@ func init() {
 			}
 			cw.add("skip", "skip", fmt.Sprintf("N stall deaf-peer-large-request took=%dms res=%s", took.Milliseconds(), res), prop)
 		}
+		// a device that does not complete the TCP handshake (its accept queue is full, a firewall drops the SYN): a listening
+		// socket with backlog 0 whose queue is taken. The call fails after ConnectionTimeout, whatever form the address has
+		for _, hv := range []struct {
+			v6   bool
+			host string
+		}{{false, "127.0.0.1"}, {true, "[::1]"}, {true, "::1"}, {true, "0:0:0:0:0:0:0:1"}} {
+			v6 := hv.v6
+			port, release, ok := stalledListener(v6)
+			if !ok {
+				cw.add("skip", "skip", fmt.Sprintf("T stall handshake-never-completes v6=%v (not available here)", v6), "pass")
+				continue
+			}
+			host := hv.host // a bare IPv6 literal is no usable address at present: such a call fails at once, which is in time too
+			res, took := "blocked", 4*time.Second
+			if cl, err := rscp.NewClient(rscp.ClientConfig{Address: host, Port: uint16(port), Username: "u", Password: "p", Key: "k",
+				ConnectionTimeout: 300 * time.Millisecond, SendTimeout: 300 * time.Millisecond, ReceiveTimeout: 300 * time.Millisecond}); err == nil {
+				done := make(chan string, 1)
+				t0 := time.Now()
+				go func() {
+					defer func() {
+						if r := recover(); r != nil {
+							done <- "panic"
+						}
+					}()
+					if _, err := cl.Send(rscp.Message{Tag: rscp.INFO_REQ_UTC_TIME, DataType: rscp.None}); err != nil {
+						done <- "err"
+					} else {
+						done <- "ok"
+					}
+				}()
+				select {
+				case res = <-done:
+					took = time.Since(t0)
+				case <-time.After(4 * time.Second):
+				}
+			} else {
+				res = "config-refused"
+			}
+			release()
+			prop := "pass"
+			if res == "blocked" || res == "ok" || res == "panic" || took > 2*time.Second {
+				prop = fmt.Sprintf("FAIL C10 a call to a device (%s) that never completes the TCP handshake ends with %q after %v; the connection time-out is 300 ms", host, res, took.Round(time.Millisecond))
+			}
+			cw.add("skip", "skip", fmt.Sprintf("N stall handshake-never-completes host=%s res=%s", host, res), prop)
+		}
 		var wg sync.WaitGroup
 		sem := make(chan struct{}, 16)
 		for _, c := range cases {
@@ -613,4 +670,59 @@ func tcpPair() (net.Conn, net.Conn, error) {
 		return nil, nil, fmt.Errorf("accept failed")
 	}
 	return a, b, nil
+}
+
+// stalledListener: a listening loopback socket with backlog 0 whose accept queue is occupied, so that the kernel drops
+// further SYNs silently. ok=false if that state cannot be reached on this system
+func stalledListener(v6 bool) (port int, release func(), ok bool) {
+	family := syscall.AF_INET
+	if v6 {
+		family = syscall.AF_INET6
+	}
+	fd, err := syscall.Socket(family, syscall.SOCK_STREAM, 0)
+	if err != nil {
+		return 0, func() {}, false
+	}
+	var hold []net.Conn
+	release = func() {
+		for _, h := range hold {
+			h.Close()
+		}
+		syscall.Close(fd)
+	}
+	var sa syscall.Sockaddr = &syscall.SockaddrInet4{Addr: [4]byte{127, 0, 0, 1}}
+	if v6 {
+		a := &syscall.SockaddrInet6{}
+		a.Addr[15] = 1
+		sa = a
+	}
+	if err := syscall.Bind(fd, sa); err != nil {
+		release()
+		return 0, func() {}, false
+	}
+	if err := syscall.Listen(fd, 0); err != nil {
+		release()
+		return 0, func() {}, false
+	}
+	got, err := syscall.Getsockname(fd)
+	if err != nil {
+		release()
+		return 0, func() {}, false
+	}
+	addr := ""
+	switch x := got.(type) {
+	case *syscall.SockaddrInet4:
+		port, addr = x.Port, fmt.Sprintf("127.0.0.1:%d", x.Port)
+	case *syscall.SockaddrInet6:
+		port, addr = x.Port, fmt.Sprintf("[::1]:%d", x.Port)
+	}
+	for i := 0; i < 8; i++ {
+		h, err := net.DialTimeout("tcp", addr, 200*time.Millisecond)
+		if err != nil {
+			return port, release, true
+		}
+		hold = append(hold, h)
+	}
+	release()
+	return 0, func() {}, false
 }
